@@ -27,7 +27,7 @@ ASSUMPTIONS = [
 ]
 FLOORS = {"quick": {"cases_held": 600, "linearity_checks": 600, "twice_checks": 600, "mon_sensitivity": 3000, "mon_reset": 2000,
                     "examples_completed": 12, "example_monitored_calls": 1000},
-          "thorough": {"cases_held": 6000, "linearity_checks": 6000, "twice_checks": 6000, "mon_sensitivity": 30000, "mon_reset": 20000,
+          "thorough": {"cases_held": 20000, "linearity_checks": 20000, "twice_checks": 20000, "mon_sensitivity": 100000, "mon_reset": 60000,
                        "examples_completed": 36, "example_monitored_calls": 5000}}
 TIMEOUT_CASE = 600
 
@@ -42,7 +42,7 @@ def _examples():
 
 
 def plan(tier, seed):
-    n = 1000 if tier == "quick" else 10000
+    n = 1000 if tier == "quick" else 30000
     fams = []
     for f, w in catalogue.WEIGHTS.items():
         fams += [f] * w
